@@ -153,6 +153,13 @@ Definition dft (N : nat) (x : list R) : list R :=
 Definition idft (N : nat) (X : list R) : list R :=
   map (fun k => rmul invN (rsum N (fun m => rmul (getr X m) (rpow omi (m * k))))) (seq 0 N).
 
+(* dft(x, kscale=ks): the coefficients at a user-supplied list of bins (any integers:
+   centred / negative bins, subsets, permutations); bin k is taken modulo N, which is
+   what exp(-2 pi i n k / N) does.  X[j] = sum_n x[n] om^(n * (k_j mod N)). *)
+Definition bin_of (N : nat) (k : Z) : nat := Z.to_nat (k mod Z.of_nat N).
+Definition dft_bins (N : nat) (x : list R) (ks : list Z) : list R :=
+  map (fun k => rsum N (fun j => rmul (getr x j) (rpow om (j * bin_of N k)))) ks.
+
 (* ifft(fft(a) * fft(b)) *)
 Definition spectral_conv (N : nat) (a b : list R) : list R :=
   idft N (pmul (dft N a) (dft N b)).
@@ -213,6 +220,9 @@ Definition convolve_same_with (cc : nat -> list R -> list R -> list R)
 (* _freq_filter(ts, si, b, typ), along one axis, before np.real:
      ifft(fft(ts) * fexpand(filc, ns))    with filc real (conj = id on it) *)
 Definition resp_lp (c : list R) : list R := map (fun v => rsub rI v) c.   (* 1 - filc *)
+(* bp: filc = _freq_vector(f, b[0:2], 'hp') * _freq_vector(f, b[2:4], 'lp')  — the PRODUCT of
+   the high-pass response c1 and the low-pass response 1 - c2, whatever the corners *)
+Definition bp_resp (c1 c2 : list R) : list R := pmul c1 (resp_lp c2).
 Definition freq_filter (conj : R -> R) (N : nat) (filc ts : list R) : option (list R) :=
   match fexpand rO conj filc (Z.of_nat N) with
   | Some H => Some (idft N (pmul (dft N ts) H))
@@ -249,6 +259,9 @@ Definition freq_response (ns sp sq bd b0n b1n : Z) : option (list (Z * Z * Z)) :
 (* dft(x): nk = ns if complex input else np.ceil((ns + 1) / 2) *)
 Definition dft_nk (ns : Z) (is_complex : bool) : Z :=
   if is_complex then ns else cdiv (ns + 1) 2.
+(* with kscale given: nk = kscale.size *)
+Definition dft_nk_k (ns : Z) (is_complex : bool) (kscale_size : option Z) : Z :=
+  match kscale_size with Some m => m | None => dft_nk ns is_complex end.
 
 (* ------------------------------------------------------------------ *)
 (* dtype promotion in convolve.  Each operand is zero padded IN ITS OWN dtype
